@@ -4,7 +4,26 @@ import json, os
 V = os.path.dirname(os.path.dirname(os.path.abspath(__file__)))
 props = [json.loads(l) for l in open(os.path.join(V, "properties.jsonl"))]
 
+NOTE = "Lean kernel + Mathlib; axioms propext/Classical.choice/Quot.sound (audited every run); hand-written model tied to /repo by the correspondence harness (differential, 1e-9 rel); external numerics (np.roots, eigh, RNG, libm) are model parameters with monitored contracts"
 LEVEL = {
+    "C01": ("proof", "Lean theorems for every dimension/mass vector/state count: an accepted hop conserves KE+V exactly, a rejected hop is a no-op, "
+            "the chosen scale factor is a root of the code's quadratic; Verlet on a harmonic surface conserves a shadow energy exactly and the "
+            "true-energy drift is bounded by (Omega dt^2/2) E0 for ANY number of steps. Partial: O(dt^2) drift on a general smooth potential is "
+            "not derived in Lean (Richardson-ratio test on the implementation, labelled a test). Model tied to hop_to_it of all four hopping "
+            "classes, to advance_position/velocity of SH and MD, and to whole runs", "7 C01", NOTE,
+            "Lean 4 theorems (ring/field identities, induction over steps) + correspondence on boundary-directed hops"),
+    "C03": ("proof", "Lean theorems for every N: flux identity for rho'=-i[W,rho], antisymmetry, zero self-flux, g=max(0,b dt/rho_kk)>=0, sum rule, "
+            "complete specification of the cumulative-partition scan (hop to n iff zeta in n's slot; zero-width slots never chosen), Poisson total "
+            "1-exp(-G) and unchanged branching ratios. Tied to surface_hopping/hopper with thresholds exactly on and one ulp either side of "
+            "every boundary of dyadic partitions", "7 C03", NOTE, "Lean 4 theorems (Finset algebra, list induction) + exact-boundary correspondence"),
+    "C04": ("proof", "Lean theorems: upward hop accepted iff (v.u)^2/(2 sum u_i^2/m_i) > gap (strict), downward always; momentum change is "
+            "s*u (parallel to the direction); the applied root has the smaller magnitude and both are roots; rejected hop is a no-op; event fields. "
+            "Run-level event/active-state consistency is checked on the implementation for both trace stores (oracle), its loop theorem is in C16", "7 C04", NOTE,
+            "Lean 4 theorems + correspondence with gaps at 1e-13..0.3 relative distance from the threshold"),
+    "C09": ("proof", "Lean theorems: closed form 1-(1-a)exp(-sum G) of the accumulation for any rate list, attempt iff threshold below it, first "
+            "attempt = first crossing (complete spec), reset and fresh threshold, user thresholds first, inverse-CDF target slot of length g_j/G, "
+            "hop-time law prod(1-p_i) p_k (Poisson equivalence), zero-rate steps never attempt. Tied to TrajectoryCum.hopper on driven sequences", "7 C09", NOTE,
+            "Lean 4 theorems (list induction, Real.exp algebra) + sequence correspondence"),
     "C20": ("proof", "Lean theorems at R/C about the model of poisson_prob_scale (value at 0, exact closed form outside the switch, "
             "series within |x|^5/600 inside it for real and complex x, strictly decreasing on [0,inf) across the switch, range (0,1]); "
             "model tied to the code by bit-level correspondence (4e-15) on boundary-directed scalars; float accuracy of libm is partial "
